@@ -47,7 +47,7 @@ def run_shard(shard, ctx):
         tag = ("c06", kind, D, R)
         Sig = objs.spd_batch(D, R, vi, seed, tag, diag=diag)
         mu = objs.vec_batch(D, R, vi, seed, tag)
-        which = ("fresh", "sliced_neg", "updated", "Sigma+Lambda", "queried", "replaced_mu", "prod_conjugate", "conditioned", "prod_linear", "prod_constant") if (vi == 0 and D <= 3) else ("fresh",)
+        which = ("fresh", "sliced_neg", "updated", "Sigma+Lambda", "queried", "replaced_mu", "prod_conjugate", "conditioned", "prod_linear", "prod_constant", "hadamard_onerank", "multiply_onerank", "joint_of_cond") if (vi == 0 and D <= 3) else ("fresh",)
         for prep, mkp, mu_e, Sig_e in objs.pdf_variants(kind, Sig, mu, which=which):
             with ctx.guard("prepare." + prep, dict(prep=prep)) as g:
                 p = mkp()
@@ -70,9 +70,13 @@ def run_shard(shard, ctx):
 def cond_on(ctx, shard, tier, p, kind, D, R, N, vi, mu, Sig, lists, prep):
     if True:
         x = al.points(N, D, salt=vi + D)
+        if vi == objs.HARD:
+            x = x * 0.5 + mu[0][None]  # near the first component's mean, ~50 sigma from the origin (and from the other components)
         lpj = np.asarray(p.evaluate_ln(J(x)))
         refj = np.array([rm.gauss_logpdf(x, mu[r], Sig[r]) for r in range(R)])
         ctx.close("joint.value", lpj, refj)
+        with ctx.guard("joint.call"):
+            objs.call_matches(ctx, "joint.call_value", p(J(x)), refj, lscale=objs.ln_scale(x, Sig))
         for b in lists:
             a_sorted = [d for d in range(D) if d not in b]
             variants = [("condition_on", a_sorted)]
@@ -94,6 +98,8 @@ def cond_on(ctx, shard, tier, p, kind, D, R, N, vi, mu, Sig, lists, prep):
                         c = p.condition_on_explicit(objs.idx(b, sum(b)), objs.idx(a, sum(a) + 1))
                     cx = c.condition_on_x(J(x[:, b]))
                     lp = np.asarray(cx.evaluate_ln(J(x[:, a])))  # [R*N, N]
+                    dens = np.asarray(cx(J(x[:, a]))) if len(b) == 1 or vi == objs.HARD else None  # the density form, as the statement is written
+                    dmarg = np.asarray(p.get_marginal(J(b))(J(x[:, b]))) if dens is not None else None
                 if not g.ok:
                     continue
                 lhs = np.zeros((R, N))
@@ -106,6 +112,8 @@ def cond_on(ctx, shard, tier, p, kind, D, R, N, vi, mu, Sig, lists, prep):
                     M_, c_, S_ = rm.conditional(mu[r], Sig[r], a, b)
                     Mr.append(M_), br.append(c_), Sr.append(S_)
                 ctx.close(op + ".product_rule", lhs, refj, facts=facts)
+                if dens is not None:
+                    objs.call_matches(ctx, op + ".product_rule_density", np.array([[dens[r * N + n, n] * dmarg[r, n] for n in range(N)] for r in range(R)]), refj, facts=facts, lscale=objs.ln_scale(x, Sig))
                 ctx.close(op + ".product_rule_lib", lhs, lpj, facts=facts)
                 ctx.close(op + ".M", np.asarray(c.M), np.array(Mr), facts=facts)
                 ctx.close(op + ".b", np.asarray(c.b), np.array(br), facts=facts)
